@@ -124,11 +124,11 @@ def run(tier, seed):
     # ---- model checking (both specs concurrently; -coverage for the vacuity guard)
     cfg = "ExcSpec" if tier == "quick" else "ExcSpec_thorough"
     with concurrent.futures.ThreadPoolExecutor(3) as ex:
-        f1 = ex.submit(core.tlc_or_die, "ExcSpec", cfg=cfg, timeout=1200, coverage=True, workers=4)
-        f2 = ex.submit(core.tlc_or_die, "ExcSpecCpp", cfg="ExcSpecCpp", timeout=1200, coverage=True, workers=4)
+        f1 = ex.submit(core.tlc_or_die, "ExcSpec", cfg=cfg, timeout=2400, coverage=True, workers=4)
+        f2 = ex.submit(core.tlc_or_die, "ExcSpecCpp", cfg="ExcSpecCpp", timeout=2400, coverage=True, workers=4)
         # sensitivity of the model: with the caller comparing against the unconverted literal (SentCast = "none")
         # TLC must find the lost exception / fabricated value itself
-        f3 = ex.submit(core.tlc, "ExcSpec", cfg="ExcSpec_nocast", timeout=1200, workers=2, deadlock=False)
+        f3 = ex.submit(core.tlc, "ExcSpec", cfg="ExcSpec_nocast", timeout=2400, workers=2, deadlock=False)
         r1, r2, r3 = f1.result(), f2.result(), f3.result()
     if r3.ok or r3.violation != "ImplAgrees":
         sys.stderr.write(r3.out[-3000:])
@@ -196,7 +196,8 @@ def run(tier, seed):
 
     def pipeline(name, src, cs, cmap, directives, options, cflags, facts):
         tb = time.time()
-        b = core.build_many([core.BuildSpec(name, src, directives=directives, options=options, cflags=cflags)], workdir=work, jobs=1)[0]
+        b = core.build_many([core.BuildSpec(name, src, directives=directives, options=options, cflags=cflags)], workdir=work, jobs=1,
+                            timeout=1800 if tier == "quick" else 3600)[0]      # default 900 s is not enough on a heavily loaded machine
         t_mod[name] = [round(tb - t0, 1), round(time.time() - tb, 1)]
         if not b.ok:
             return b, None
